@@ -303,7 +303,35 @@ func runAtomic(c AtomicCase, o *vt.Obs) *vt.Failure {
 		}
 		return nil
 	}
+	// index-stable read: applied index, content, applied index again; if the index did not move in between, the content must be
+	// the state after exactly that many stamps (entry i is stamp i) - the effects of an apply call and its index become visible together
+	indexStable := func() error {
+		l1, err := r.LocalIndex()
+		if err != nil {
+			return err
+		}
+		resp, err := r.Range(&regattapb.RequestOp_Range{Key: []byte("g"), RangeEnd: []byte("gz")})
+		if err != nil {
+			return err
+		}
+		l2, err := r.LocalIndex()
+		if err != nil {
+			return err
+		}
+		if l1 == l2 && l1 > 0 && len(resp.Kvs) > 0 {
+			want := fmt.Sprintf("s%04d", l1)
+			for _, kv := range resp.Kvs {
+				if string(kv.Value) != want {
+					return fmt.Errorf("applied index reads %d before and after, but the content carries stamp %q instead of %q: index and data of one apply call were not published together", l1, kv.Value, want)
+				}
+			}
+		}
+		return nil
+	}
 	readOnce := func() (vals [][]byte, err error) {
+		if err := indexStable(); err != nil {
+			return nil, err
+		}
 		if c.Predicates {
 			if err := predicateRead(); err != nil {
 				return nil, err
